@@ -104,6 +104,14 @@ def build_records(quick: bool, seed: int, repo: str) -> list[dict[str, Any]]:
         base = ''.join(rnd.choice(FULL) for _ in range(rnd.choice([63, 64, 80, 120])))
         a, b = base + 'x' + 'q' * rnd.randint(0, 5), base + 'y' + 'q' * rnd.randint(0, 5)
         recs.append({'kind': 'distinct', 'id': cps(a), 'key': cps(conv.make_v2_key(a)), 'key2': cps(conv.make_v2_key(b))})
+    # ... and long ids that differ ONLY in characters which the name-making step maps to the same character ('/' and '.', '<' '>' and '_')
+    for _ in range(60 if quick else 1200):
+        base = ''.join(rnd.choice(FULL) for _ in range(rnd.choice([64, 70, 90])))
+        tail = ''.join(rnd.choice('abcxyz019') for _ in range(rnd.randint(1, 6)))
+        x, y = rnd.choice([('/', '.'), ('<', '_'), ('>', '_'), ('.', '/')])
+        k = rnd.randint(1, len(base) - 1)
+        a, b = base[:k] + x + base[k:] + tail, base[:k] + y + base[k:] + tail
+        recs.append({'kind': 'distinct', 'id': cps(a), 'key': cps(conv.make_v2_key(a)), 'key2': cps(conv.make_v2_key(b))})
     # round trip / purge / isolation through every storage
     record_variants = [
         progress.ProgressRecord(started='2030-01-01T00:00:00', stopped=None, delayed=None, purpose='create', retries=0, success=False,
